@@ -128,6 +128,30 @@ async def run(ctx):
             toks = chain(pattern, length, {"and": rng.choice(G.AND_SP), "or": rng.choice(G.OR_SP), "xor": rng.choice(G.XOR_SP)}, rng)
             check_string(ctx, G.join_tokens(toks, rng), "long-chain")
             ctx.count("long_chains")
+    # ---- long runs of ONE operator (more operands than any small-scope case) with a few other operators / brackets in between ----
+    for n in ([34, 36, 40, 48, 66] if ctx.quick else [33, 34, 35, 36, 40, 48, 64, 65, 66, 80, 100, 129]):
+        for _rep in range(2 if ctx.quick else 4):
+            idx += 1
+            if not ctx.mine(idx):
+                continue
+            main = rng.choice(["and", "or", "xor", "then"])
+            spell = {"and": rng.choice(G.AND_SP), "or": rng.choice(G.OR_SP), "xor": rng.choice(G.XOR_SP)}
+            toks = []
+            i = 0
+            while i < n:
+                if toks:
+                    op = main if rng.random() < 0.88 else rng.choice(["and", "or", "xor", "then"])
+                    if op != "then":
+                        toks.append(spell[op])
+                if rng.random() < 0.06 and i + 3 <= n:
+                    inner = rng.choice(["and", "or", "xor"])
+                    toks += ["(", "[%d]" % (i + 1), spell[inner], "[%d]" % (i + 2), ")"]
+                    i += 2
+                else:
+                    toks.append("[%d]" % (i + 1))
+                    i += 1
+            check_string(ctx, G.join_tokens(toks, rng if _rep % 2 else None), "long-run")
+            ctx.count("long_runs_of_one_operator")
     for depth in ((20, 60) if ctx.quick else (20, 60, 120, 200)):
         idx += 1
         if not ctx.mine(idx):
